@@ -350,7 +350,21 @@ impl VDesc {
                     }
                     let mut pr = aff.into_projective();
                     if *z != 0 && !aff.is_zero() {
-                        let zz = fq_from_rng(&mut Rng::new(*z));
+                        // z = 1..=6: structured Z (−1, 2, −2, q−... small); otherwise a random Z from the seed z
+                        let mut zz = fq_from_rng(&mut Rng::new(*z));
+                        if *z <= 6 {
+                            zz = Fq::one();
+                            if *z == 2 || *z == 3 || *z == 5 {
+                                zz.double();
+                            }
+                            if *z == 5 || *z == 6 {
+                                zz.double();
+                                zz.add_assign(&Fq::one());
+                            }
+                            if *z % 2 == 1 {
+                                zz.negate();
+                            }
+                        }
                         if !zz.is_zero() {
                             let mut z2 = zz;
                             z2.square();
@@ -389,7 +403,19 @@ impl VDesc {
                     let mut pr = aff.into_projective();
                     if *z != 0 && !aff.is_zero() {
                         let mut rr = Rng::new(*z);
-                        let zz = Fq2 { c0: fq_from_rng(&mut rr), c1: fq_from_rng(&mut rr) };
+                        let mut zz = Fq2 { c0: fq_from_rng(&mut rr), c1: fq_from_rng(&mut rr) };
+                        // z = 1..=6: structured Z: u, b·u, a (real), −1, 1+u, −u; otherwise random
+                        let mut m1 = Fq::one();
+                        m1.negate();
+                        match *z {
+                            1 => zz = Fq2 { c0: Fq::zero(), c1: Fq::one() },
+                            2 => zz.c0 = Fq::zero(),
+                            3 => zz.c1 = Fq::zero(),
+                            4 => zz = Fq2 { c0: m1, c1: Fq::zero() },
+                            5 => zz = Fq2 { c0: Fq::one(), c1: Fq::one() },
+                            6 => zz = Fq2 { c0: Fq::zero(), c1: m1 },
+                            _ => {}
+                        }
                         if !zz.is_zero() {
                             let mut z2 = zz;
                             z2.square();
